@@ -38,7 +38,7 @@ type C14Case struct {
 
 var c14Sizes = []int{0, 1, 2, 100, 1023, 1024, 1025, 2047, 2048, 2049, 4095, 4096, 4097, 65535, 65536, 65537, 200000}
 
-var c14Supported = []string{"bytes", "bb", "bb1", "bbalias", "buffer", "breader", "sreader", "netbuffers", "wt1", "wtN", "wtReuse", "bufio", "reader", "short", "eofdata", "errafter",
+var c14Supported = []string{"bytes", "bb", "bb1", "bbalias", "breader-used", "sreader-used", "emptyreads", "buffer", "breader", "sreader", "netbuffers", "wt1", "wtN", "wtReuse", "bufio", "reader", "short", "eofdata", "errafter",
 	"limited", "limitedcut", "multi", "section", "exact"}
 var c14Unsupported = []string{"string", "int", "struct", "nil", "intslice", "httpreq"}
 
@@ -172,6 +172,21 @@ func c14Carrier(c C14Case) (msg interface{}, want []byte) {
 		return bytes.NewReader(content), content
 	case "sreader":
 		return strings.NewReader(string(content)), content
+	case "breader-used", "sreader-used":
+		// a reader the application has already read something from: the message is what is left unread
+		tag := []byte("tag:")[:1+c.Seed%4]
+		all := append(append([]byte{}, tag...), content...)
+		if c.Carrier == "breader-used" {
+			r := bytes.NewReader(all)
+			_, _ = io.ReadFull(r, make([]byte, len(tag)))
+			return r, content
+		}
+		r := strings.NewReader(string(all))
+		_, _ = io.ReadFull(r, make([]byte, len(tag)))
+		return r, content
+	case "emptyreads":
+		// a plain reader that answers (0, nil) before every fragment (allowed by io.Reader, never twice in a row)
+		return &shortReader{data: append([]byte{}, content...), step: step, empty: true}, content
 	case "netbuffers":
 		var segs net.Buffers
 		for off := 0; off < len(content); off += step {
@@ -270,13 +285,13 @@ func genC14(t *rapid.T) C14Case {
 	case "countof":
 		c.Carrier = rapid.SampledFrom([]string{"bb", "bbalias"}).Draw(t, "carrier")
 	case "bytereader":
-		c.Carrier = rapid.SampledFrom([]string{"breader", "sreader", "buffer", "reader", "short", "eofdata", "bufio", "errafter", "limited", "limitedcut", "multi", "section", "exact"}).Draw(t, "carrier")
+		c.Carrier = rapid.SampledFrom([]string{"breader", "sreader", "buffer", "reader", "short", "eofdata", "bufio", "errafter", "limited", "limitedcut", "multi", "section", "exact", "breader-used", "sreader-used", "emptyreads"}).Draw(t, "carrier")
 		if c.Size > 5000 {
 			c.Size = rapid.IntRange(0, 5000).Draw(t, "brsize")
 			c.ErrAt = imin(c.ErrAt, c.Size)
 		}
 	default:
-		c.Carrier = rapid.SampledFrom([]string{"breader", "sreader", "buffer", "netbuffers", "wt1", "wtN", "wtReuse", "bufio"}).Draw(t, "carrier")
+		c.Carrier = rapid.SampledFrom([]string{"breader", "sreader", "buffer", "netbuffers", "wt1", "wtN", "wtReuse", "bufio", "breader-used", "sreader-used"}).Draw(t, "carrier")
 	}
 	return c
 }
@@ -414,6 +429,14 @@ func runC14(c C14Case) (out core.Outcome) {
 		default:
 			if err != nil || !bytes.Equal(got, want) {
 				out.Violation = core.Viol("C14/tobytes-differs:"+c.Carrier, "ToBytes(%T) = %d bytes, err %v; want %d bytes (first difference at %d)", msg, len(got), err, len(want), firstDiff(got, want))
+				return
+			}
+			// the result belongs to the caller: a codec keeps it (header + body) while it converts the next message
+			other := bytes.Repeat([]byte{0x5A}, imax(1, len(want)))
+			_, _ = utils.ToBytes(bytes.NewReader(other))
+			_, _ = utils.ToBytes(strings.NewReader(string(other)))
+			if !bytes.Equal(got, want) {
+				out.Violation = core.Viol("C14/helper-result-changed-later:tobytes:"+c.Carrier, "the %d bytes ToBytes(%T) returned were overwritten by a later conversion of another message (first difference at %d)", len(got), msg, firstDiff(got, want))
 			}
 		}
 		return
@@ -489,6 +512,12 @@ func runC14(c C14Case) (out core.Outcome) {
 		got, err := utils.StealBytes(wt)
 		if err != nil || !bytes.Equal(got, want) {
 			out.Violation = core.Viol("C14/stealbytes-differs:"+c.Carrier, "StealBytes(%T) = %d bytes, err %v; want %d bytes (first difference at %d)", msg, len(got), err, len(want), firstDiff(got, want))
+			return
+		}
+		other := bytes.Repeat([]byte{0x5A}, imax(1, len(want)))
+		_, _ = utils.StealBytes(bytes.NewReader(other))
+		if !bytes.Equal(got, want) {
+			out.Violation = core.Viol("C14/helper-result-changed-later:stealbytes:"+c.Carrier, "the %d bytes StealBytes(%T) returned were overwritten by a later conversion of another message (first difference at %d)", len(got), msg, firstDiff(got, want))
 		}
 		return
 	}
@@ -496,7 +525,7 @@ func runC14(c C14Case) (out core.Outcome) {
 
 func isReaderCarrier(k string) bool {
 	switch k {
-	case "buffer", "breader", "sreader", "bufio", "reader", "short", "eofdata", "errafter", "netbuffers", "limited", "limitedcut", "multi", "section", "exact": // *net.Buffers has a Read method
+	case "buffer", "breader", "sreader", "bufio", "reader", "short", "eofdata", "errafter", "netbuffers", "limited", "limitedcut", "multi", "section", "exact", "breader-used", "sreader-used", "emptyreads": // *net.Buffers has a Read method
 		return true
 	}
 	return false
